@@ -194,6 +194,15 @@ def regen():
     for code in rec.value_set('code'):
         dt = np.dtype(rec.numpy_dtype[code])
         tc.append(f'("{dt.kind}{dt.itemsize}", {int(code)}, {int(rec.bytespervox[code])})')
+    # what `MGHHeader.__init__` -> `_set_affine_default` leaves in delta / Mdc / Pxyz_c for goodRASFlag == 0
+    blk = bytearray(h.binaryblock)
+    o_good, o_delta, o_mdc = (int(mf.header_dtype.fields[k][1]) for k in ('goodRASFlag', 'delta', 'Mdc'))
+    blk[o_good:o_good + 2] = b'\0\0'
+    blk[o_delta:mf.header_dtype.itemsize] = b'\x41' * (mf.header_dtype.itemsize - o_delta)
+    h_nr = mf.MGHHeader(bytes(blk))
+    nr = h_nr.binaryblock
+    def_delta = [int(x) for x in np.frombuffer(nr[o_delta:o_mdc], dtype='>u4')]
+    def_ras = list(nr[o_mdc:mf.header_dtype.itemsize])
     L = ['/-! GENERATED by harness/props/c19.py regen() from the working tree of nibabel',
          '    (freesurfer/io.py, freesurfer/mghformat.py).  Do not edit: rewritten on every run of `./check C19`.',
          '    Core Lean only. -/',
@@ -212,7 +221,10 @@ def regen():
          '/-- `MGHHeader()` defaults -/',
          f'def defVersion : Nat := {int(h["version"])}',
          f'def defDof : Nat := {int(h["dof"])}',
-         f'def defGoodRAS : Nat := {int(h["goodRASFlag"])}', '',
+         f'def defGoodRAS : Nat := {int(h["goodRASFlag"])}',
+         '/-- `delta` patterns and `Mdc`+`Pxyz_c` bytes of a header loaded with goodRASFlag = 0 (`_set_affine_default`) -/',
+         f'def defDeltaNoRas : List Nat := {def_delta}',
+         f'def defRasBytes : List Nat := {def_ras}', '',
          '/-- constants of `read_geometry` / `write_geometry` / `read_morph_data` / `write_morph_data` -/',
          f'def triangleMagic : Nat := {tri}', f'def quadMagic : Nat := {quad}', f'def newQuadMagic : Nat := {nquad}',
          f'def geomMagicBytes : List Nat := {gmb}', f'def morphMagic : Nat := {mmagic}',
